@@ -207,6 +207,8 @@ def Admissible (E : List Edge) (x y : Nat) (Z : List Nat) : Prop :=
 /-- edge endpoints are nodes (invariant of the networkx container) -/
 def Graph.WF (G : Graph) : Prop := ∀ e ∈ G.edges, e.1 ∈ G.nodes ∧ e.2 ∈ G.nodes
 
+instance (G : Graph) : Decidable G.WF := by unfold Graph.WF; infer_instance
+
 /-- no directed cycle -/
 def Acyclic (E : List Edge) : Prop := ∀ v, ¬ TransGen (edgeRel E) v v
 
@@ -403,5 +405,266 @@ theorem check_iff {G : Graph} (hwf : G.WF) (x y : Nat) (Z : List Nat) :
     constructor
     · intro h'; exact ⟨fun z hz hdz => h (hd.mpr ⟨z, hz, hdz⟩), h'⟩
     · exact fun h' => h'.2
+
+
+/-! ### enumeration of candidate sets -/
+
+theorem mem_combos {l : List Nat} {k : Nat} {Z : List Nat} :
+    Z ∈ combos k l ↔ Z.Sublist l ∧ Z.length = k := by
+  induction l generalizing k Z with
+  | nil =>
+    cases k with
+    | zero => simp [combos]
+    | succ k =>
+      simp only [combos, List.not_mem_nil, List.sublist_nil, false_iff, not_and]
+      rintro rfl; simp
+  | cons a l ih =>
+    cases k with
+    | zero =>
+      simp only [combos, List.mem_singleton, List.length_eq_zero_iff]
+      constructor
+      · rintro rfl; simp
+      · exact fun h => h.2
+    | succ k =>
+      simp only [combos, List.mem_append, List.mem_map, ih, List.sublist_cons_iff]
+      constructor
+      · rintro (⟨r, ⟨hr, hk⟩, rfl⟩ | ⟨hs, hk⟩)
+        · exact ⟨.inr ⟨r, rfl, hr⟩, by simp [hk]⟩
+        · exact ⟨.inl hs, hk⟩
+      · rintro ⟨hs | ⟨r, rfl, hr⟩, hk⟩
+        · exact .inr ⟨hs, hk⟩
+        · exact .inl ⟨r, ⟨hr, by simpa using hk⟩, rfl⟩
+
+theorem mem_allSubsets {l Z : List Nat} : Z ∈ allSubsets l ↔ Z.Sublist l := by
+  simp only [allSubsets, List.mem_flatMap, List.mem_range, mem_combos]
+  constructor
+  · rintro ⟨_, _, h, _⟩; exact h
+  · intro h; exact ⟨Z.length, Nat.lt_succ_of_le h.length_le, h, rfl⟩
+
+theorem mem_listAll {G : Graph} {x y : Nat} {Z : List Nat} :
+    Z ∈ listAll G x y ↔ Z.Sublist (cands G x y) ∧ check G x y Z = true := by
+  simp [listAll, mem_allSubsets]
+
+theorem mem_cands {G : Graph} (hnd : G.nodes.Nodup) {x y v : Nat} :
+    v ∈ cands G x y ↔ v ∈ G.nodes ∧ v ≠ x ∧ v ≠ y := by
+  unfold cands
+  rw [(hnd.erase x).mem_erase_iff, hnd.mem_erase_iff]
+  tauto
+
+/-! ### the specification only depends on the members of `Z` and on the edge set -/
+
+theorem admissible_congr {E E' : List Edge} {x y : Nat} {Z Z' : List Nat} (hE : ∀ e, e ∈ E ↔ e ∈ E')
+    (hZ : ∀ v, v ∈ Z ↔ v ∈ Z') : Admissible E x y Z ↔ Admissible E' x y Z' := by
+  have h0 : edgeRel E = edgeRel E' := by funext a b; exact propext (hE (a, b))
+  have h1 : InAn E x y Z = InAn E' x y Z' := by
+    funext v; simp only [InAn, h0, hZ]
+  have h2 : BdEdge E x y Z = BdEdge E' x y Z' := by
+    funext a b; simp only [BdEdge, h1, hE]
+  have h3 : MoralMinus E x y Z = MoralMinus E' x y Z' := by
+    funext a b; simp only [MoralMinus, MoralAdj, h2, hZ]
+  simp only [Admissible, IsDesc, h0, h3, hZ]
+
+/-! ### minimal sets -/
+
+theorem minLen_le {L : List (List Nat)} {W : List Nat} (h : W ∈ L) : minLen L ≤ W.length := by
+  induction L with
+  | nil => simp at h
+  | cons a L ih =>
+    cases L with
+    | nil => simp at h; subst h; simp [minLen]
+    | cons b L =>
+      simp only [minLen]
+      rcases List.mem_cons.mp h with rfl | h
+      · exact Nat.min_le_left ..
+      · exact Nat.le_trans (Nat.min_le_right ..) (ih h)
+
+theorem minLen_attained {L : List (List Nat)} (h : L ≠ []) : ∃ W ∈ L, W.length = minLen L := by
+  induction L with
+  | nil => exact absurd rfl h
+  | cons a L ih =>
+    cases L with
+    | nil => exact ⟨a, by simp, by simp [minLen]⟩
+    | cons b L =>
+      obtain ⟨W, hW, hl⟩ := ih (by simp)
+      simp only [minLen]
+      rcases Nat.le_total a.length (minLen (b :: L)) with h' | h'
+      · exact ⟨a, by simp, by rw [Nat.min_eq_left h']⟩
+      · exact ⟨W, List.mem_cons_of_mem _ hW, by rw [Nat.min_eq_right h', hl]⟩
+
+theorem mem_minimal {L : List (List Nat)} {Z : List Nat} :
+    Z ∈ minimal L ↔ Z ∈ L ∧ ∀ W ∈ L, Z.length ≤ W.length := by
+  simp only [minimal, List.mem_filter, beq_iff_eq]
+  constructor
+  · rintro ⟨hZ, hl⟩
+    exact ⟨hZ, fun W hW => hl ▸ minLen_le hW⟩
+  · rintro ⟨hZ, hmin⟩
+    refine ⟨hZ, ?_⟩
+    obtain ⟨W, hW, hl⟩ := minLen_attained (L := L) (by rintro rfl; simp at hZ)
+    exact Nat.le_antisymm (hl ▸ hmin W hW) (minLen_le hZ)
+
+/-! ### acyclicity and the editing state machine -/
+
+theorem isAcyclic_iff {E : List Edge} : isAcyclic E = true ↔ Acyclic E := by
+  have h : isAcyclic E = E.all (fun e => !(reach E e.2).contains e.1) := rfl
+  rw [h]
+  simp only [List.all_eq_true, Bool.not_eq_true', List.contains_eq_mem, decide_eq_false_iff_not, mem_reach,
+    Acyclic, TransGen.head'_iff, not_exists, not_and]
+  constructor
+  · intro h v b hvb; exact h (v, b) hvb
+  · rintro h ⟨a, b⟩ he; exact h a b he
+
+theorem acyclic_congr {E E' : List Edge} (hE : ∀ e, e ∈ E ↔ e ∈ E') : Acyclic E ↔ Acyclic E' := by
+  have h0 : edgeRel E = edgeRel E' := by funext a b; exact propext (hE (a, b))
+  simp only [Acyclic, h0]
+
+theorem tg_mono {E E' : List Edge} (h : ∀ e ∈ E, e ∈ E') {u v : Nat} :
+    TransGen (edgeRel E) u v → TransGen (edgeRel E') u v := by
+  intro h'
+  induction h' with
+  | single hab => exact .single (h _ hab)
+  | tail _ hab ih => exact ih.tail (h _ hab)
+
+theorem tg_cons {e : Edge} {E : List Edge} {u v : Nat} (h : TransGen (edgeRel (e :: E)) u v) :
+    TransGen (edgeRel E) u v ∨ (ReflTransGen (edgeRel E) u e.1 ∧ ReflTransGen (edgeRel E) e.2 v) := by
+  obtain ⟨b, hub, hbv⟩ := TransGen.head'_iff.mp h
+  have hub' : (u, b) = e ∨ (u, b) ∈ E := by simpa [edgeRel] using hub
+  rw [rtg_cons] at hbv
+  rcases hub' with rfl | hE
+  · rcases hbv with h1 | ⟨_, h2⟩
+    · exact .inr ⟨.refl, h1⟩
+    · exact .inr ⟨.refl, h2⟩
+  · rcases hbv with h1 | ⟨h1, h2⟩
+    · exact .inl (TransGen.head' hE h1)
+    · exact .inr ⟨ReflTransGen.head hE h1, h2⟩
+
+/-- adding the arrow `e = (a,b)` keeps the graph acyclic exactly when `b` does not already reach `a` -/
+theorem acyclic_cons {e : Edge} {E : List Edge} :
+    Acyclic (e :: E) ↔ Acyclic E ∧ ¬ ReflTransGen (edgeRel E) e.2 e.1 := by
+  constructor
+  · intro h
+    refine ⟨fun v hv => h v (tg_mono (fun x hx => List.mem_cons_of_mem _ hx) hv), fun hr => ?_⟩
+    have hr' : ReflTransGen (edgeRel (e :: E)) e.2 e.1 := rtg_mono (fun x hx => List.mem_cons_of_mem _ hx) hr
+    exact h e.1 (TransGen.head' (by simp [edgeRel]) hr')
+  · rintro ⟨hE, hr⟩ v hv
+    rcases tg_cons hv with h | ⟨h1, h2⟩
+    · exact hE v h
+    · exact hr (h2.trans h1)
+
+theorem mem_addNode {ns : List Nat} {v a : Nat} : a ∈ addNode ns v ↔ a ∈ ns ∨ a = v := by
+  unfold addNode
+  split
+  · rename_i h
+    have : v ∈ ns := by simpa using h
+    constructor
+    · exact .inl
+    · rintro (h | rfl) <;> assumption
+  · simp
+
+theorem nodup_addNode {ns : List Nat} {v : Nat} (h : ns.Nodup) : (addNode ns v).Nodup := by
+  unfold addNode
+  split
+  · exact h
+  · rename_i hc
+    have : v ∉ ns := by simpa using hc
+    exact List.nodup_append.mpr ⟨h, by simp, by
+      intro a ha b hb; simp at hb; subst hb; exact fun hab => this (hab ▸ ha)⟩
+
+theorem mem_addEdge_edges {G : Graph} {e e' : Edge} : e' ∈ (addEdge G e).edges ↔ e' ∈ G.edges ∨ e' = e := by
+  unfold addEdge
+  simp only
+  split
+  · rename_i h
+    have : e ∈ G.edges := by simpa using h
+    constructor
+    · exact .inl
+    · rintro (h | rfl) <;> assumption
+  · simp
+
+theorem mem_addEdge_nodes {G : Graph} {e : Edge} {a : Nat} :
+    a ∈ (addEdge G e).nodes ↔ a ∈ G.nodes ∨ a = e.1 ∨ a = e.2 := by
+  simp [addEdge, mem_addNode, or_assoc]
+
+theorem mem_foldl_addEdge_edges {ps : List Edge} {G : Graph} {e' : Edge} :
+    e' ∈ (ps.foldl addEdge G).edges ↔ e' ∈ G.edges ∨ e' ∈ ps := by
+  induction ps generalizing G with
+  | nil => simp
+  | cons p ps ih => simp only [List.foldl_cons, ih, mem_addEdge_edges, List.mem_cons]; tauto
+
+/-- container invariant: endpoints of arrows are nodes, no node is listed twice -/
+structure Graph.Inv (G : Graph) : Prop where
+  wf : G.WF
+  nodup : G.nodes.Nodup
+
+theorem inv_addEdge {G : Graph} (h : G.Inv) (e : Edge) : (addEdge G e).Inv := by
+  refine ⟨?_, ?_⟩
+  · intro e' he'
+    rw [mem_addEdge_nodes, mem_addEdge_nodes]
+    rcases mem_addEdge_edges.mp he' with h' | rfl
+    · exact ⟨.inl (h.wf _ h').1, .inl (h.wf _ h').2⟩
+    · exact ⟨.inr (.inl rfl), .inr (.inr rfl)⟩
+  · exact nodup_addNode (nodup_addNode h.nodup)
+
+theorem inv_foldl_addEdge {ps : List Edge} {G : Graph} (h : G.Inv) : (ps.foldl addEdge G).Inv := by
+  induction ps generalizing G with
+  | nil => exact h
+  | cons p ps ih => exact ih (inv_addEdge h p)
+
+theorem nodup_foldl_addNode {ns acc : List Nat} (h : acc.Nodup) : (ns.foldl addNode acc).Nodup := by
+  induction ns generalizing acc with
+  | nil => exact h
+  | cons p ps ih => exact ih (nodup_addNode h)
+
+theorem inv_build (ns : List Nat) (es : List Edge) : (build ns es).Inv := by
+  unfold build
+  apply inv_foldl_addEdge
+  exact ⟨by intro e he; simp at he, nodup_foldl_addNode List.nodup_nil⟩
+
+theorem inv_init (x y : Nat) : (init x y).Inv :=
+  inv_addEdge ⟨by intro e he; simp at he, List.nodup_nil⟩ _
+
+theorem mem_foldl_addEdge_nodes_of_mem {ps : List Edge} {G : Graph} {a : Nat} (h : a ∈ G.nodes) :
+    a ∈ (ps.foldl addEdge G).nodes := by
+  induction ps generalizing G with
+  | nil => exact h
+  | cons p ps ih => exact ih (mem_addEdge_nodes.mpr (.inl h))
+
+/-- what `applyOp` returns when it succeeds -/
+theorem applyOp_ok {x y : Nat} {G G' : Graph} {op : Op} (h : applyOp x y G op = .ok G') :
+    Acyclic G'.edges ∧
+    (match op with
+      | .arrow s t => G' = addEdge G (s, t)
+      | .arrows ps => G' = ps.foldl addEdge G
+      | .fromGraph ns es => G' = build ns es ∧ x ∈ G'.nodes ∧ y ∈ G'.nodes) := by
+  cases op with
+  | arrow s t =>
+    simp only [applyOp] at h
+    split at h
+    · rename_i hc; cases h; exact ⟨isAcyclic_iff.mp hc, rfl⟩
+    · cases h
+  | arrows ps =>
+    simp only [applyOp] at h
+    split at h
+    · rename_i hc; cases h; exact ⟨isAcyclic_iff.mp hc, rfl⟩
+    · cases h
+  | fromGraph ns es =>
+    simp only [applyOp] at h
+    split at h
+    · cases h
+    · rename_i hc
+      split at h
+      · cases h
+      · rename_i hx
+        split at h
+        · cases h
+        · rename_i hy
+          cases h
+          refine ⟨isAcyclic_iff.mp (by simpa using hc), rfl, by simpa using hx, by simpa using hy⟩
+
+theorem step_error_unchanged {x y : Nat} {G : Graph} {op : Op} {e : Err} (h : (step x y G op).2 = some e) :
+    (step x y G op).1 = G := by
+  unfold step at h ⊢
+  split
+  · rename_i h'; rw [h'] at h; cases h
+  · rfl
 
 end ZV.Dag
